@@ -14,10 +14,12 @@ CHECKS = {
             {"pkg": "lib", "entries": ["VerifC17Flat"], "params": {"N": 3, "M": 2}},
             {"pkg": "lib", "entries": ["VerifC17Flat"], "params": {"N": 2, "M": 3}},
             {"pkg": "lib", "entries": ["VerifC17Docs"], "params": {"KN": 1}},
+            {"pkg": "lib", "entries": ["VerifC17Deep"], "params": {"DEPTH": 7, "N": 3}},
         ],
         "thorough": [
             {"pkg": "lib", "entries": ["VerifC17Flat"], "params": {"N": 3, "M": 3}},
             {"pkg": "lib", "entries": ["VerifC17Docs"], "params": {"KN": 2, "INNER": 2}},
+            {"pkg": "lib", "entries": ["VerifC17Deep"], "params": {"DEPTH": 9, "N": 3, "CHAINKINDS": 2}},
         ],
         "covers": ["c17.flat.none", "c17.flat.set", "c17.flat.multiset", "c17.flat.merge", "c17.flat.precision", "c17.obj.none", "c17.keyed.setkeys", "c17.void.none"],
         "outside": "arrays longer than N; keys other than a,b,c,id,v; FNV collisions; the top-level binary with -v2=false (C14)",
@@ -28,7 +30,7 @@ CHECKS = {
             {"pkg": "lib", "entries": ["VerifC18Merge"], "params": {"D": 0, "EMPTYOBJ": 1}},
         ],
         "thorough": [
-            {"pkg": "lib", "entries": ["VerifC18Patch"], "params": {"N": 3, "KEYS": 5}},
+            {"pkg": "lib", "entries": ["VerifC18Patch"], "params": {"N": 3, "KEYS": 6}},
             {"pkg": "lib", "entries": ["VerifC18Merge"], "params": {"D": 1, "EMPTYOBJ": 1, "ROOTS": 1}},
             {"pkg": "lib", "entries": ["VerifC18Merge"], "params": {"D": 0, "EMPTYOBJ": 1, "INNER": 2}},
         ],
@@ -42,7 +44,7 @@ CHECKS = {
         ],
         "thorough": [
             {"pkg": "v2", "entries": ["VerifC10Own"], "params": {"N": 3, "FAMS": 1}},
-            {"pkg": "v2", "entries": ["VerifC10Own"], "params": {"N": 2, "KEYS": 5}},
+            {"pkg": "v2", "entries": ["VerifC10Own"], "params": {"N": 2, "KEYS": 6}},
             {"pkg": "v2", "entries": ["VerifC10Ops"], "params": {"OPS": 4, "N": 2, "MAXIDX": 3}},
             {"pkg": "v2", "entries": ["VerifC10Ops"], "params": {"OPS": 5, "N": 1, "MAXIDX": 1, "WRAPS": 1}},
         ],
@@ -56,7 +58,7 @@ CHECKS = {
         ],
         "thorough": [
             {"pkg": "v2", "entries": ["VerifC09Render"], "params": {"N": 3, "FAMS": 1}},
-            {"pkg": "v2", "entries": ["VerifC09Render"], "params": {"N": 2, "KEYS": 5}},
+            {"pkg": "v2", "entries": ["VerifC09Render"], "params": {"N": 2, "KEYS": 6}},
             {"pkg": "v2", "entries": ["VerifC09Refuse"], "params": {}},
         ],
         "covers": ["c09.render", "c09.refuse"],
@@ -97,6 +99,7 @@ CHECKS = {
     "C11": {
         "quick": [
             {"pkg": "v2", "entries": ["VerifC11Merge"], "params": {"D": 0, "EMPTYOBJ": 1}},
+            {"pkg": "v2", "entries": ["VerifC11Deep"], "params": {"DEPTH": 7}},
         ],
         "thorough": [
             {"pkg": "v2", "entries": ["VerifC11Merge"], "params": {"D": 1, "EMPTYOBJ": 1, "ROOTS": 1, "OPTN": 1}},
@@ -108,6 +111,7 @@ CHECKS = {
     "C12": {
         "quick": [
             {"pkg": "v2", "entries": ["VerifC12Merge"], "params": {"D": 0}},
+            {"pkg": "v2", "entries": ["VerifC12Deep"], "params": {"DEPTH": 7}},
         ],
         "thorough": [
             {"pkg": "v2", "entries": ["VerifC12Merge"], "params": {"D": 1}},
@@ -160,7 +164,7 @@ CHECKS = {
     },
     "C13": {
         "quick": [
-            {"pkg": "v2", "entries": ["VerifC13Patch"], "params": {"PLEN": 1}},
+            {"pkg": "v2", "entries": ["VerifC13Patch"], "params": {"PLEN": 1, "RM": 2, "AD": 2}},
             {"pkg": "v2", "entries": ["VerifC13Patch"], "params": {"PLEN": 2, "RENDER": 1}},
         ],
         "thorough": [
